@@ -223,6 +223,7 @@ type run struct {
 	sentBody []byte
 	sb       *scriptBody
 	cw       *recWriter   // the client's writer (for scheduler gates)
+	sh       *sharedTC    // the shared Transcoder this RPC runs on, if any
 	bgPanic  atomic.Value // a panic inside the transcoder on one of the handler's own goroutines
 	hWrote   []byte       // raw bytes the handler wrote (pass-through comparison)
 	hStatus  int
@@ -854,7 +855,11 @@ func (rn *run) serveDuplex(w http.ResponseWriter, req *http.Request) {
 		if _, err := io.ReadFull(req.Body, env); err != nil {
 			return nil, err
 		}
-		p := make([]byte, binary.BigEndian.Uint32(env[1:]))
+		decl := binary.BigEndian.Uint32(env[1:])
+		if decl > 1<<24 {
+			return nil, fmt.Errorf("frame announces %d bytes", decl) // (garbage lengths must not make the handler allocate)
+		}
+		p := make([]byte, decl)
 		if _, err := io.ReadFull(req.Body, p); err != nil {
 			return nil, err
 		}
@@ -1099,6 +1104,14 @@ func (rn *run) serveBackend(kind string, w http.ResponseWriter, req *http.Reques
 		_ = req.Body.Close()
 	}
 	rn.respond(w, form, codec, herr)
+	if hd.NestBig && rn.sh != nil {
+		nested := scenario{SID: rn.scn.SID + "/nested", Fam: rn.scn.Fam, Cfg: rn.scn.Cfg,
+			Cl: clientSpec{Form: "connect_post", Method: "Post", Codec: "json", Major: 1, Frames: []frameSpec{{M: 1}}},
+			Hd: handlerSpec{Frames: []frameSpec{{M: 9}}, ErrAt: 1, Status: 200, CT: "expected", Exit: "return",
+				End: endSpec{How: "normal", Msg: "empty", Style: "declared"}},
+			Msgs: map[string]string{"9": "size:1500"}}
+		_ = runOn(rn.sh, &nested, 77, rn.rpcID+"-nested")
+	}
 	if hd.Exit == "panic" {
 		panic("scripted backend panic")
 	}
@@ -1991,6 +2004,7 @@ func runOn(sh *sharedTC, scn *scenario, seed int64, rpcID string) (obs observati
 	var tc *vanguard.Transcoder
 	if sh != nil {
 		tc = sh.tc
+		rn.sh = sh
 		rn.rpcID = rpcID
 		sh.mu.Lock()
 		sh.runs[rpcID] = rn
